@@ -64,6 +64,7 @@ func Run(p *load.Program, tier string) *oblig.Set {
 	r.loopExit()
 	r.captures()
 	r.helperRules()
+	r.jumpRules()
 	r.dflt()
 	r.effects()
 	return s
@@ -839,6 +840,14 @@ func (r *ruler) v11() {
 		key := r.key("WRITE", "prints with the same renderer as toa")
 		pr := events(pa, "call", "fmt.Print")
 		ok := len(pr) == 1 && pr[0].Args[0] == "slice[iface(value.Type:V0)]"
+		if fp := events(pa, "call", "fmt.Fprint"); len(pr) == 0 && len(fp) == 1 && len(fp[0].Args) == 2 {
+			// writing to os.Stdout itself is the same thing; any other writer may
+			// hold the text back (a buffer that exit() or a failure never flushes)
+			if strings.Contains(fp[0].Args[0], "global os.Stdout") {
+				pr = fp
+				ok = fp[0].Args[1] == "slice[iface(value.Type:V0)]"
+			}
+		}
 		if !ok && len(pr) == 1 {
 			// fmt.Print(val.String()) is the same renderer
 			st := events(pa, "call", "(value.Type).String")
@@ -848,7 +857,7 @@ func (r *ruler) v11() {
 		if ok && len(ps) == 1 {
 			r.s.OK("V11", key, r.ppos(pa), "fmt.Print of the value itself (fmt uses its String method), then pushes a result")
 		} else {
-			r.s.Bad("V11", key, r.ppos(pa), "write must print the value through value.Type.String (fmt.Print(val) or fmt.Print(val.String())) and push one result", pa.Describe()...)
+			r.s.Bad("V11", key, r.ppos(pa), "write must print the value through value.Type.String, straight to standard output (fmt.Print(val), fmt.Print(val.String()) or fmt.Fprint(os.Stdout, val)), and push one result; output parked in a buffer is lost when exit() or a failure ends the statement", pa.Describe()...)
 		}
 		break
 	}
@@ -863,6 +872,9 @@ func (r *ruler) v11() {
 			r.s.OK("V12", key, r.ppos(pa), "reads a line from the package level reader "+rs[0].Args[0])
 		} else {
 			r.s.Bad("V12", key, r.ppos(pa), "read must take one whole line (ReadString('\\n')) from a buffered reader that outlives the instruction; a reader built per READ loses what it buffered", pa.Describe()...)
+		}
+		if len(rs) == 1 {
+			r.readerUses(strings.TrimPrefix(rs[0].Args[0], "global vm."))
 		}
 		ps := events(pa, "call", ".Push")
 		ns := events(pa, "call", "value.NewString")
